@@ -65,7 +65,7 @@ CHECKS['C17'] = dict(
 CHECKS['C15'] = dict(
     level=MC, engine='seqx',
     technique='bounded-exhaustive enumeration of (algorithm, level, buffer length, content family) through the real mtbl_compress/_level/_decompress; assertion failures captured in-process',
-    text='Every length 0..64 (thorough 0..300) x 7 content families x every algorithm value x every level in a boundary set (INT_MIN..INT_MAX, each library minimum-1..maximum+1) goes through the real compress/decompress pair; the oracle is exactly the statement: failure, or a byte-exact round trip, never an abort. Short buffers and extreme levels are where output-bound and clamping errors live, and they are covered completely.',
+    text='Every length 0..64 (thorough 0..1000) x 7 content families x every algorithm value x every level in a boundary set (INT_MIN..INT_MAX, each library minimum-1..maximum+1) goes through the real compress/decompress pair; the oracle is exactly the statement: failure, or a byte-exact round trip, never an abort. Short buffers and extreme levels are where output-bound and clamping errors live, and they are covered completely.',
     jobs=[
         dict(name='small', spec=H('h_compress.c', 'asan'), args=['small']),
         dict(name='big', spec=H('h_compress.c', 'asan'), args=['big']),
@@ -74,7 +74,7 @@ CHECKS['C15'] = dict(
     states_key='cases', transitions_key='transitions', traces_key='cases',
     rule='one case = (algorithm, with/without level, level, content family, length); signature = (algorithm, clamped level, min(len,16)+size class, family)',
     bounds={'quick': 'len 0..64 x 7 families x 8 algorithm values x levels {INT_MIN, INT_MIN+1, -131073..-131071, -10001..-9999, -100, lib min-1..max+1, INT_MAX-1, INT_MAX}; len 2^k+{-1,0,1}, k=7..20 x 3 levels; names: enum -2..9, all strings len<=4 over 33 letters, one-edit neighbours, all case variants',
-            'thorough': 'len 0..300; k up to 24'},
+            'thorough': 'len 0..1000; k up to 24'},
     nonzero=['cases', 'compress_ok', 'compress_refused'],
     assumptions=['the four compression libraries themselves are trusted'],
     budget={'quick': 240, 'thorough': 1800},
@@ -142,12 +142,12 @@ CHECKS['C10'] = dict(
 CHECKS['C08'] = dict(
     level=MC, engine='seqx',
     technique='exhaustive enumeration of all key sequences with repetition up to a length bound through the real mtbl_writer_add, against a reference ordering gate; finished file decoded independently',
-    text='All sequences of length <=4 (thorough <=5) WITH repetition over 8 short keys (empty key, prefix pairs, 0x7f/0x80, 0xffff) and over a second pool of 8 keys of 4-5 bytes whose leading bytes span 0x00..0xff x every assignment of small/block-filling values (so refusals happen right before and after a block cut, where the writer temporarily remembers a shortened separator) are added; each add result must equal the reference gate "strictly greater than the last accepted key", and the file must hold exactly the accepted entries with trailer counters to match. mtbl_writer_init is run on existing empty/non-empty files, symlinks (live, dangling, to a directory) and directories.',
+    text='All sequences of length <=4 (thorough <=6) WITH repetition over 8 short keys (empty key, prefix pairs, 0x7f/0x80, 0xffff) and over a second pool of 8 keys of 4-5 bytes whose leading bytes span 0x00..0xff x every assignment of small/block-filling values (so refusals happen right before and after a block cut, where the writer temporarily remembers a shortened separator) are added; each add result must equal the reference gate "strictly greater than the last accepted key", and the file must hold exactly the accepted entries with trailer counters to match. mtbl_writer_init is run on existing empty/non-empty files, symlinks (live, dangling, to a directory) and directories.',
     jobs=[dict(name='gate', spec=H('h_gate.c', 'asan'), args=[])],
     states_key='cases', transitions_key='transitions', traces_key='cases',
     rule='one case = (key index sequence, small/big value vector, configuration); signature = (#blocks, #refused, #accepted)',
     bounds={'quick': 'sequences of length<=4 over 8 short keys (4681) x 2^n value vectors x {restart 16, restart 1}, the same sequences over a second pool of 8 keys of 4-5 bytes (restart 16), compression none, block size 1024; 7 exclusive-create scenarios',
-            'thorough': 'length<=5 (37449 sequences), adds lz4'},
+            'thorough': 'length<=5 (37449 sequences) with three configurations incl. lz4; length 6 (262144 sequences x 64 value vectors) in one configuration'},
     nonzero=['cases', 'cases_with_refusal', 'excl_cases'],
     assumptions=['the reference gate is the property statement itself (unsigned byte-wise order, proper prefix first)', 'the finished file is judged by the independent decoder'],
     budget={'quick': 240, 'thorough': 1800},
@@ -234,7 +234,7 @@ _SRT_NOHOOK = H('h_sorter.c', 'asan', tu_flags={'mtbl/sorter.c': ['-Dmkstemp=vf_
 CHECKS['C06'] = dict(
     level=MC, engine='seqx',
     technique='exhaustive enumeration of input sequences x every memory budget (hence every chunking the budget mechanism can produce) through the real sorter, fold-tree merge oracle; mkstemp seam; cross-check without the hook at the real 10 MiB floor',
-    text='Every input sequence of length <=6 (thorough <=8) over keys {empty, a, b} with unique value tags is sorted under every max_memory from 1 byte up to everything-in-memory (the MTBL_VERIF hook lets the public setter go that low), through the iterator and through mtbl_sorter_write (file decoded independently). Output must be the distinct keys ascending with fold trees whose leaves are exactly the values added per key. The mkstemp seam records every spill template (must lie directly in the configured directory) and the spill count after each add (a spill must have happened once buffered key+value bytes reach the limit). After iteration began add/write must be refused and change nothing. Pools of 1,2,8 real threads for inputs <=4; one run per tier is repeated WITHOUT the hook at the genuine 10 MiB floor with 3.5 MiB values.',
+    text='Every input sequence of length <=6 (thorough <=9) over keys {empty, a, b} with unique value tags is sorted under every max_memory from 1 byte up to everything-in-memory (the MTBL_VERIF hook lets the public setter go that low), through the iterator and through mtbl_sorter_write (file decoded independently). Output must be the distinct keys ascending with fold trees whose leaves are exactly the values added per key. The mkstemp seam records every spill template (must lie directly in the configured directory) and the spill count after each add (a spill must have happened once buffered key+value bytes reach the limit). After iteration began add/write must be refused and change nothing. Pools of 1,2,8 real threads for inputs <=4; one run per tier is repeated WITHOUT the hook at the genuine 10 MiB floor with 3.5 MiB values.',
     jobs=[
         dict(name='sequences', spec=_SRT, args=['seq']),
         dict(name='pooled', spec=_SRT, args=['pool']),
@@ -243,7 +243,7 @@ CHECKS['C06'] = dict(
     states_key='cases', transitions_key='transitions', traces_key='cases',
     rule='one case = (key sequence, budget, pool size, iterate|write, merge on/off); signature = (#chunks, length, pool, mode)',
     bounds={'quick': 'sequences of length<=6 over 3 keys (1093) x every budget 1..cost+2 (step 3 for n=6) x {iterate, write}; pooled: length<=4 x pools {1,2,8} (budget step 5); 6 runs at the unhooked 10 MiB floor',
-            'thorough': 'length<=8 (9841 sequences; every budget for n<=6, step 7 above); pooled length<=5'},
+            'thorough': 'length<=9 (29524 sequences; every budget for n<=6, step 7 for n=7,8, step 19 for n=9); pooled length<=5'},
     nonzero=['cases', 'multi_chunk_runs'],
     assumptions=['spilling earlier than the limit is accepted', 'spill timing is only observed without a pool (with a pool the spill is asynchronous)'],
     budget={'quick': 300, 'thorough': 2400},
@@ -341,7 +341,7 @@ CHECKS['C19'] = dict(
     bounds={'quick': 'all families on 6 seeds x {verify off,on} x {init, init_fd}; see harness/h_ropen.c for the value sets',
             'thorough': 'same (the families are exhaustive as defined)'},
     nonzero=['cases', 'returned_null', 'returned_reader', 'mmap_env_cases'],
-    assumptions=['unstructured content is covered only by a fixed pseudo-random family (3 x 3000 files, generator with fixed seeds); the structured families target every field the open path reads'],
+    assumptions=['unstructured content is covered only by a fixed pseudo-random family (3 x 3000 files quick, 3 x 300000 thorough; generator with fixed seeds); the structured families target every field the open path reads'],
     budget={'quick': 300, 'thorough': 1200},
 )
 
